@@ -56,6 +56,12 @@ func (f *Frame) heapWF(name, h, alloc string) {
 		f.ctx.Fact(fmt.Sprintf("(forall ((p Ptr)) (! (or (= (select %s p) nil) (< (pobj (select %s p)) %s)) :pattern ((select %s p))))", h, h, alloc, h))
 	case "H_slice":
 		f.ctx.Fact(fmt.Sprintf("(forall ((p Ptr)) (! (or (= (sbase (select %s p)) nil) (< (pobj (sbase (select %s p))) %s)) :pattern ((select %s p))))", h, h, alloc, h))
+	default:
+		// pointer-valued maps: every stored pointer refers to an allocated object
+		if strings.HasPrefix(name, "Mval|") && strings.HasSuffix(name, "|Ptr") {
+			ks := strings.Split(name, "|")[1]
+			f.ctx.Fact(fmt.Sprintf("(forall ((m Ptr) (k %s)) (! (or (= (select (select %s m) k) nil) (< (pobj (select (select %s m) k)) %s)) :pattern ((select (select %s m) k))))", ks, h, h, alloc, h))
+		}
 	}
 }
 
@@ -318,6 +324,9 @@ func (f *Frame) callWrites(cc *ssa.CallCommon) *WriteSet {
 	}
 	callee := cc.StaticCallee()
 	if callee == nil {
+		if nt, ok := cc.Value.Type().(*types.Named); ok && nt.Obj().Pkg() != nil && nt.Obj().Pkg().Path() == "context" && nt.Obj().Name() == "CancelFunc" {
+			return w
+		}
 		w.All = true
 		return w
 	}
@@ -677,6 +686,11 @@ func (f *Frame) zeroInitElems(st *State, base string, elem types.Type) {
 func (f *Frame) newObj(st *State, hint string) string {
 	c := f.ctx.Fresh("obj_"+hint, "Int")
 	f.ctx.Fact(fmt.Sprintf("(and (>= %s %s) (>= %s 1))", c, st.alloc, c))
+	if hint == "map" || hint == "chan" {
+		f.ctx.Fact(fmt.Sprintf("(ismapobj %s)", c))
+	} else {
+		f.ctx.Fact(fmt.Sprintf("(not (ismapobj %s))", c))
+	}
 	na := f.ctx.Fresh("alloc", "Int")
 	f.ctx.Fact(fmt.Sprintf("(= %s (+ %s 1))", na, c))
 	st.alloc = na
@@ -976,10 +990,15 @@ func (f *Frame) havocState(st *State, w *WriteSet, why string) *State {
 	na := f.ctx.Fresh("alloc", "Int")
 	f.ctx.Fact(fmt.Sprintf("(>= %s %s)", na, st.alloc))
 	out.alloc = na
-	for _, hn := range []string{"H_ptr", "H_slice"} {
-		if t, ok := out.heaps[hn]; ok && t != st.heaps[hn] {
-			f.heapWF(hn, t, na)
+	var changed []string
+	for hn, t := range out.heaps {
+		if t != st.heaps[hn] {
+			changed = append(changed, hn)
 		}
+	}
+	sort.Strings(changed)
+	for _, hn := range changed {
+		f.heapWF(hn, out.heaps[hn], na)
 	}
 	return out
 }
